@@ -376,9 +376,9 @@ func c27(c *hx.Ctx) {
 
 	// ---- Node27 ----
 	type scen struct {
-		subs   map[string]int   // channel -> handlers
-		subsL  []string         // order
-		pcs    [][2]any         // (peer, channel)
+		subs   map[string]int // channel -> handlers
+		subsL  []string       // order
+		pcs    [][2]any       // (peer, channel)
 		msgs   []symMsg
 		result *node27Result
 	}
